@@ -6,6 +6,7 @@ CONSTANTS
  MaxCommits = 3
  MaxSteps = 8
  Emit = FALSE
+ Skew = FALSE
 SPECIFICATION CSpec
 VIEW CView
 PROPERTY NoClobber
